@@ -70,8 +70,9 @@ static ACCESS_OOB: Mutex<Vec<String>> = Mutex::new(Vec::new());
 static NEXT_ID: AtomicU64 = AtomicU64::new(1);
 
 thread_local! {
-    /// live readers of this thread: (id, address of the region's first byte in the mapping, region)
-    static READERS: RefCell<Vec<(u64, usize, Region)>> = const { RefCell::new(Vec::new()) };
+    /// live readers of this thread: (id, address of the region's first byte in the mapping, region,
+    /// address range of the whole mapping)
+    static READERS: RefCell<Vec<(u64, usize, Region, usize, usize)>> = const { RefCell::new(Vec::new()) };
 }
 
 pub fn access_tap_start() {
@@ -97,12 +98,13 @@ pub fn access_enabled() -> bool {
     ACCESS_ON.load(Ordering::Relaxed)
 }
 
-pub(crate) fn register_reader(base: *const u8, region: &Region) -> u64 {
+pub(crate) fn register_reader(base: *const u8, region: &Region, map: &[u8]) -> u64 {
     if !access_enabled() {
         return 0;
     }
     let id = NEXT_ID.fetch_add(1, Ordering::Relaxed);
-    READERS.with(|r| r.borrow_mut().push((id, base as usize, region.clone())));
+    let lo = map.as_ptr() as usize;
+    READERS.with(|r| r.borrow_mut().push((id, base as usize, region.clone(), lo, lo + map.len())));
     id
 }
 
@@ -134,28 +136,33 @@ pub fn range_access(region: &Region, off: usize, n: usize) {
     }
 }
 
-/// `n` bytes at raw pointer `p` (inside the data-file mapping) are about to be read on behalf of the
-/// reader of this thread whose region starts nearest below `p`.
+/// `n` bytes at raw pointer `p` are about to be read. If `p` lies inside the data-file mapping of a live
+/// reader of this thread, the read is attributed to the reader whose region starts nearest below `p`
+/// (pointers into ordinary buffers are ignored).
 #[inline]
 pub fn ptr_access(p: *const u8, n: usize) {
     if access_enabled() {
         let p = p as usize;
-        let hit = READERS.with(|r| {
-            r.borrow()
+        let (mapped, hit) = READERS.with(|r| {
+            let r = r.borrow();
+            let mapped = r.iter().any(|e| e.3 <= p && p < e.4);
+            let hit = r
                 .iter()
-                .filter(|e| e.1 <= p)
+                .filter(|e| e.3 <= p && p < e.4 && e.1 <= p)
                 .max_by_key(|e| e.1)
-                .map(|e| (e.1, e.2.clone()))
+                .map(|e| (e.1, e.2.clone()));
+            (mapped, hit)
         });
         match hit {
             Some((base, region)) => {
                 let m = region.meta();
                 check(m.id(), m.len(), p - base, n, "mmap pointer");
             }
-            None => {
+            None if mapped => {
                 ACCESS_COUNT.fetch_add(1, Ordering::Relaxed);
-                ACCESS_OOB.lock().push(format!("mmap pointer read of {n} bytes with no live reader on this thread"));
+                ACCESS_OOB.lock().push(format!("mmap pointer read of {n} bytes below every live reader's region"));
             }
+            None => {}
         }
     }
 }
